@@ -28,6 +28,10 @@ pub struct Case {
     pub schedules: Vec<Vec<usize>>,
     pub edits: Vec<Edit>,
     pub esi: bool,
+    /// other registrations with do-nothing handlers (they change which path of the selector VM
+    /// produces the element: name-only, attribute bail-out, jumps), and whether they precede `*`
+    pub companions: Vec<String>,
+    pub companions_first: bool,
 }
 
 const EDIT_ATTR_NAMES: &[&str] = &["id", "ID", "class", "x", "new-attr", "NEW", "href", "", "a b", "a=b", "a/b", "a>b", "q\"", "\u{e9}"];
@@ -47,6 +51,8 @@ pub fn decode(tape: &[u16]) -> Case {
         });
     }
     let esi = t.chance(1, 5);
+    let companions: Vec<String> = if t.chance(1, 2) { crate::gens::sel::selector_set(&mut t, 3, true).iter().map(crate::model::css::render).collect() } else { vec![] };
+    let companions_first = t.chance(1, 2);
     let specs: Vec<_> = (0..3).map(|_| sched_spec(&mut t)).collect();
     let d = doc(&mut t, &DocOpts { max_items: 8, max_attrs: 5, enc, ..DocOpts::default() });
     let n = d.bytes.len();
@@ -63,7 +69,7 @@ pub fn decode(tape: &[u16]) -> Case {
             schedules.push(sp.resolve(n));
         }
     }
-    Case { d, schedules, edits, esi }
+    Case { d, schedules, edits, esi, companions, companions_first }
 }
 
 #[derive(Clone, Debug, PartialEq, Eq, Default)]
@@ -121,10 +127,19 @@ fn run_real(c: &Case, cuts: &[usize]) -> Result<Vec<Reads>, String> {
     let enc = c.d.enc;
     let r = guard(|| -> Result<(), String> {
         let lg = log.clone();
-        let st = Settings::new()
-            .with_encoding(AsciiCompatibleEncoding::new(enc).unwrap())
-            .with_strict(false)
-            .with_enable_esi_tags(c.esi)
+        let mut st = Settings::new().with_encoding(AsciiCompatibleEncoding::new(enc).unwrap()).with_strict(false).with_enable_esi_tags(c.esi);
+        let noop = |st: Settings<'static, 'static>, sels: &[String]| -> Result<Settings<'static, 'static>, String> {
+            let mut st = st;
+            for s in sels {
+                let sel: lol_html::Selector = s.parse().map_err(|e| format!("companion selector {s:?} refused: {e:?}"))?;
+                st = st.append_element_content_handler((std::borrow::Cow::Owned(sel), lol_html::ElementContentHandlers::default().element(|_el: &mut Element<'_, '_>| Ok(()))));
+            }
+            Ok(st)
+        };
+        if c.companions_first {
+            st = noop(st, &c.companions)?;
+        }
+        st = st
             .append_element_content_handler(element!("*", move |el: &mut Element<'_, '_>| {
                 let mut r = Reads { name: el.tag_name(), name_pc: el.tag_name_preserve_case(), ns: el.namespace_uri().to_string(), self_closing: el.is_self_closing(), can_have_content: el.can_have_content(), attrs: read_attrs(el), ..Default::default() };
                 let l = el.source_location().bytes();
@@ -176,6 +191,9 @@ fn run_real(c: &Case, cuts: &[usize]) -> Result<Vec<Reads>, String> {
                 lg.borrow_mut().push(r);
                 Ok(())
             }));
+        if !c.companions_first {
+            st = noop(st, &c.companions)?;
+        }
         let mut rw = HtmlRewriter::new(st, |_: &[u8]| {});
         for ch in split(&c.d.bytes, cuts) {
             rw.write(ch).map_err(|e| e.to_string())?;
@@ -319,6 +337,7 @@ pub fn check_case(c: &Case, st: &mut Stats) -> PResult {
     st.label_if(!c.edits.is_empty(), "edits");
     st.label_if(c.d.has_island, "island");
     st.label_if(enc != encoding_rs::UTF_8, "non_utf8");
+    st.label_if(!c.companions.is_empty(), "companion_selectors");
     if rich || c.schedules.len() > 4 {
         let mut key = c.d.bytes.clone();
         key.extend(format!("{:?}", c.edits).as_bytes());
@@ -334,7 +353,7 @@ impl Prop for C16 {
         "C16"
     }
     fn rule(&self) -> String {
-        "case = (structured document with arbitrary attribute syntax in HTML/SVG/MathML context, one of 36 encodings, edit script of set_attribute/remove_attribute/set_tag_name, schedules: every 1-cut inside every start tag for docs <= 160 bytes, else random); oracle: tag_name/preserve-case, attributes() (source order, raw values), get/has_attribute (ASCII-ci, first duplicate), is_self_closing, can_have_content, namespace_uri equal the R-attr/R-tree model derived from the bytes, reads after edits reflect them, and R-attr agrees with html5ever's tag token. non-trivial = a tag with >= 3 attributes and (>= 2 quote styles or a duplicate), or cuts inside tags; distinct by hash(doc,edits)".into()
+        "case = (structured document with arbitrary attribute syntax in HTML/SVG/MathML context, one of 36 encodings, edit script of set_attribute/remove_attribute/set_tag_name, in half of the cases 1-3 further registrations with generated selectors [full grammar] and do-nothing handlers before or after the reading `*` handler, schedules: every 1-cut inside every start tag for docs <= 160 bytes, else random); oracle: tag_name/preserve-case, attributes() (source order, raw values), get/has_attribute (ASCII-ci, first duplicate), is_self_closing, can_have_content, namespace_uri equal the R-attr/R-tree model derived from the bytes, reads after edits reflect them, and R-attr agrees with html5ever's tag token. non-trivial = a tag with >= 3 attributes and (>= 2 quote styles or a duplicate), or cuts inside tags; distinct by hash(doc,edits)".into()
     }
     fn assumptions(&self) -> Vec<String> {
         vec![
@@ -354,6 +373,6 @@ impl Prop for C16 {
     }
     fn describe(&self, tape: &[u16]) -> Value {
         let c = decode(tape);
-        json!({"doc": show(&c.d.bytes), "doc_bytes": c.d.bytes, "encoding": c.d.enc.name(), "edits": format!("{:?}", c.edits), "esi": c.esi, "schedules": c.schedules.len()})
+        json!({"doc": show(&c.d.bytes), "doc_bytes": c.d.bytes, "encoding": c.d.enc.name(), "edits": format!("{:?}", c.edits), "esi": c.esi, "companion_selectors": c.companions, "companions_first": c.companions_first, "schedules": c.schedules.len()})
     }
 }
